@@ -796,6 +796,37 @@ func (se *specEnv) evalCall(n *SCall) (specVal, error) {
 		}
 		e.sc.DeclareFun("setenv_ok", []string{SString, SString}, SBool)
 		return specVal{t: App(SBool, "setenv_ok", as[0].t, as[1].t)}, nil
+	case "held":
+		// held(x.mu): this thread holds the mutex in field mu of the object x points to
+		if len(n.Args) != 1 {
+			return specVal{}, fmt.Errorf("held(x.f)")
+		}
+		sel, ok := n.Args[0].(*SSel)
+		if !ok {
+			return specVal{}, fmt.Errorf("held(x.f): argument must be a field selector")
+		}
+		xv, err := se.eval(sel.X)
+		if err != nil {
+			return specVal{}, err
+		}
+		pt, ok := xv.typ.Underlying().(*types.Pointer)
+		if !ok {
+			return specVal{}, fmt.Errorf("held(x.f): x must be a pointer to a struct")
+		}
+		st, ok := pt.Elem().Underlying().(*types.Struct)
+		if !ok {
+			return specVal{}, fmt.Errorf("held(x.f): x must be a pointer to a struct")
+		}
+		idx := fieldIndex(st, sel.Name)
+		if idx < 0 {
+			return specVal{}, fmt.Errorf("held: no field %s", sel.Name)
+		}
+		addr := App(SInt, "+", xv.t, IntLit(int64(1000+idx)))
+		if se.cur == e.entry && !se.pure {
+			e.heldNamed = append(e.heldNamed, addr)
+		}
+		h := e.lookup(se.cur, "L$held", ArraySort(SInt, SInt))
+		return specVal{t: Not(Eq(Select(h, addr), IntLit(0)))}, nil
 	case "visited":
 		// visited(k): key k has already been produced by the (single) range-over-map loop of this function
 		as, err := args()
